@@ -105,6 +105,24 @@ theorem directionFromString_ok_mem (s : String) (d : Direction)
     have hp' : p = (s, d) := by rw [heq, this]
     rw [← hp']; exact hmem
 
+/-- The only exception either lookup raises is `invalid_argument`. -/
+theorem kernelTypeFromString_err (s : String) (e : ErrKind) (h : kernelTypeFromString s = .error e) :
+    e = .invalid_argument := by
+  by_cases hs : ∀ p ∈ kernelSpellings, s ≠ p.1
+  · rw [kernelTypeFromString_other s hs] at h; injection h with h; exact h.symm
+  · have ⟨p, hp⟩ := Classical.not_forall.mp hs
+    have ⟨hmem, heq⟩ := Classical.not_imp.mp hp
+    have heq : s = p.1 := Classical.not_not.mp heq
+    have := (kernelSpellings_ok p hmem).1
+    rw [← heq, h] at this; cases this
+
+theorem directionFromString_err (s : String) (e : ErrKind) (h : directionFromString s = .error e) :
+    e = .invalid_argument := by
+  unfold directionFromString at h
+  split at h
+  · cases h
+  · injection h with h; exact h.symm
+
 /-! ### Neighbour kernel -/
 
 theorem neighbor_in_direction (d : Direction) (hd : d ≠ .none) (row col : Int) :
